@@ -64,6 +64,18 @@ def oracle(c, r):
         got = ioops.decode_any(r[1], c["fmt"])
     except Exception as e:  # noqa: BLE001
         return Failure(dict(sig, clause="well-formed"), f"written text not decodable: {e}")
+    if c["fmt"] in ("short_textgrid", "long_textgrid"):
+        # numToStr writes a time within 1e-14 (relative) of an integer as that integer (C01 permits it by name); this
+        # property is about the save preparation, so such a numeral is read as the in-memory time it stands for
+        universe = {lo, hi} | {x for t in g["tiers"] for e in t["es"] for x in e[:-1]} | {float(t["lo"]) for t in g["tiers"]} | {float(t["hi"]) for t in g["tiers"]}
+
+        def unsnap(y):
+            if y in universe or not float(y).is_integer():
+                return y
+            cands = [x for x in universe if ioops.time_ok(x, y)]
+            return min(cands, key=lambda x: abs(x - y)) if cands else y
+        got = {"lo": unsnap(got["lo"]), "hi": unsnap(got["hi"]),
+               "tiers": [dict(t, lo=unsnap(t["lo"]), hi=unsnap(t["hi"]), es=[[unsnap(x) for x in e[:-1]] + [e[-1]] for e in t["es"]]) for t in got["tiers"]]}
     if (got["lo"], got["hi"]) != (lo, hi):
         return Failure(dict(sig, clause="override-span"), f"file span [{got['lo']},{got['hi']}] expected [{lo},{hi}]")
     for t, w in zip(g["tiers"], got["tiers"]):
